@@ -7,6 +7,7 @@ import (
 	"os"
 	"path/filepath"
 	"sort"
+	"strconv"
 	"strings"
 	"syscall"
 	"time"
@@ -405,6 +406,113 @@ func c17Real(c *Ctx) {
 				c.Oracle(n, ok, why)
 				c.Stat(fmt.Sprintf("setstat_flags_%x", flags))
 				os.Remove(target)
+			}
+		}
+	}
+	c17StatInfos(c)
+}
+
+// ---- kind statinfo: which owner and which attribute flags fileStatFromInfo reports, and which owner the long name shows ----
+
+// entries as a handler may return them: a host os.FileInfo (Sys() is a *syscall.Stat_t) or a synthetic one (Sys() nil),
+// wrapped or not in something that implements FileInfoUidGid and/or FileInfoExtendedData
+type c17Plain struct{ os.FileInfo }
+type c17Owned struct {
+	os.FileInfo
+	uid, gid uint32
+}
+type c17Ext struct {
+	os.FileInfo
+	ext []sftp.StatExtended
+}
+type c17OwnedExt struct {
+	os.FileInfo
+	uid, gid uint32
+	ext      []sftp.StatExtended
+}
+
+func (o c17Owned) Uid() uint32                      { return o.uid }
+func (o c17Owned) Gid() uint32                      { return o.gid }
+func (e c17Ext) Extended() []sftp.StatExtended      { return e.ext }
+func (o c17OwnedExt) Uid() uint32                   { return o.uid }
+func (o c17OwnedExt) Gid() uint32                   { return o.gid }
+func (o c17OwnedExt) Extended() []sftp.StatExtended { return o.ext }
+
+func c17StatInfos(c *Ctx) {
+	dir, err := os.MkdirTemp("", "vh-c17si-")
+	if err != nil {
+		return
+	}
+	defer os.RemoveAll(dir)
+	name := filepath.Join(dir, "f")
+	os.WriteFile(name, []byte("abc"), 0o640)
+	host, err := os.Lstat(name)
+	if err != nil {
+		return
+	}
+	var suid, sgid uint32
+	if st, ok := host.Sys().(*syscall.Stat_t); ok {
+		suid, sgid = st.Uid, st.Gid
+	}
+	for _, hasStatT := range []bool{false, true} {
+		var base os.FileInfo = fakeInfo{name: "f", size: 3, mode: 0o640, mt: time.Unix(1500000000, 0)}
+		if hasStatT {
+			base = host
+		}
+		for _, iface := range []bool{false, true} {
+			for _, ids := range [][2]uint32{{suid + 1000, sgid + 2000}, {0, 0}, {4294967295, 65534}, {suid, sgid + 1}} {
+				for _, next := range []int{-1, 0, 2} { // -1: no FileInfoExtendedData
+					var ext []sftp.StatExtended
+					for i := 0; i < next; i++ {
+						ext = append(ext, sftp.StatExtended{ExtType: fmt.Sprintf("t%d", i), ExtData: "d"})
+					}
+					var fi os.FileInfo
+					switch {
+					case iface && next >= 0:
+						fi = c17OwnedExt{base, ids[0], ids[1], ext}
+					case iface:
+						fi = c17Owned{base, ids[0], ids[1]}
+					case next >= 0:
+						fi = c17Ext{base, ext}
+					default:
+						fi = c17Plain{base}
+					}
+					if !hasStatT && !iface {
+						fi = base // (the plain wrapper would hide nothing here; use the entry itself)
+						if next >= 0 {
+							fi = c17Ext{base, ext}
+						}
+					}
+					flags, fs := sftp.VerifFileStatFromInfo(fi)
+					ls := strings.Fields(sftp.VerifRunLs(fi))
+					lsu, lsg := "?", "?"
+					if len(ls) >= 4 {
+						lsu, lsg = ls[2], ls[3]
+					}
+					tohex := func(dec string) string {
+						v, err := strconv.ParseUint(dec, 10, 64)
+						if err != nil {
+							return "nan:" + dec
+						}
+						return fmt.Sprintf("%x", v)
+					}
+					ne := next
+					if ne < 0 {
+						ne = 0
+					}
+					n := c.Case("statinfo", kvb("statt", hasStatT), kvb("iface", iface), kvb("extiface", next >= 0), kvi("next", ne),
+						kvx("suid", uint64(suid)), kvx("sgid", uint64(sgid)), kvx("iuid", uint64(ids[0])), kvx("igid", uint64(ids[1])))
+					c.NT(n)
+					c.Obs(n, kvx("flags", uint64(flags)), kvx("uid", uint64(fs.UID)), kvx("gid", uint64(fs.GID)), kvs("lsuid", tohex(lsu)), kvs("lsgid", tohex(lsg)))
+					ok, why := true, ""
+					if iface && (fs.UID != ids[0] || fs.GID != ids[1]) {
+						ok, why = false, fmt.Sprintf("owner: the entry reports uid/gid %d/%d through FileInfoUidGid, the attribute block carries %d/%d", ids[0], ids[1], fs.UID, fs.GID)
+					} else if tohex(lsu) != fmt.Sprintf("%x", fs.UID) || tohex(lsg) != fmt.Sprintf("%x", fs.GID) {
+						ok, why = false, fmt.Sprintf("longname-owner: the long name shows %s/%s, the attribute block %d/%d", lsu, lsg, fs.UID, fs.GID)
+					}
+					c.Oracle(n, ok, why)
+					c.Stat("statinfo_cases")
+				}
 			}
 		}
 	}
